@@ -66,6 +66,11 @@ CHECKS = {
         technique="Hypothesis-generated state-aware command histories on a simulated network, compared step by step with a sequential reference model (model-based testing)",
         text="Abstract programs are concretised against the model state (so that deep states are reached: logins, listeners, existing files, REST->transfer, RNFR->RNTO) and executed one command at a time against the real server on memory/PathIO/AsyncPathIO backends, IPv4/IPv6, 3 block sizes, generated network tapes; reply count/order/codes, 257 text, data bytes, listing names, session liveness and the whole backend tree are compared with the model after every command; four probes at the end reveal hidden state (restart offset, pending rename, cwd).",
         note="Trusted: reference model vlib/ftpmodel.py (written from the RFCs and the property texts; points the texts leave open are not judged and are counted), simnet. Found and fixed 5 defects (KNOWN_FINDINGS)."),
+    "C15": dict(
+        category="exploration", design_ref="3/C15",
+        technique="Hypothesis traces of (chunk size, I/O duration, idle gap) through the real ThrottleStreamIO under a virtual clock vs an exact-rational token model; end-to-end transfers on a simulated zero-latency network with every write time-stamped",
+        text="API level: the real Throttle/StreamThrottle/ThrottleStreamIO run on in-memory streams whose operations take generated virtual durations, in topologies single / shared / cloned / opposite-direction only / unlimited / limit 0 / two limits / limit changed through the setter; with Fraction arithmetic the check asserts at every I/O start that completed bytes <= L*(t - t0) + 1/2 byte per accounting step (+ one block per other stream sharing the throttle), that a single stream starts exactly at max(ready, t0 + bytes/L) (no extra delay), and that no virtual time passes when no limit applies. End to end: five limit levels x direction x 1-4 connections x 1-2 users x sizes through the real client and server; the simulated network time-stamps every write of the limited side; per scope the cumulative bytes must stay under L*(t - t0) + one block per stream and the duration under bytes/L + the same slack; reader-side limits are checked through completion times.",
+        note="Trusted: simnet clock; rounding tolerance as stated. Mutants caught: reset fold with the wrong sign, half the wait, clone() returning self, read waiting on the write throttle."),
     "C16": dict(
         category="fault_enumeration", design_ref="3/C16",
         technique="enumeration of stall position x all 8 None/value combinations of the three timeouts in exact virtual time on a simulated network (plus Hypothesis-drawn values); oracle = equality with the earliest applicable bound + resource ledger",
